@@ -32,6 +32,17 @@ def _name(kind):
   return f'{kind}{me.tid}.{me.nobj}'
 
 
+def _check_acquire_args(blocking, timeout):
+  """The argument validation of the real Lock.acquire / RLock.acquire."""
+  if not isinstance(timeout, (int, float)):      # None included
+    raise TypeError(f"'{type(timeout).__name__}' object cannot be "
+                    'interpreted as an integer or float')
+  if not blocking and timeout != -1:
+    raise ValueError("can't specify a timeout for a non-blocking call")
+  if timeout < 0 and timeout != -1:
+    raise ValueError('timeout value must be positive')
+
+
 class Lock:
   _kind = 'L'
 
@@ -47,6 +58,7 @@ class Lock:
     return self._owner is None
 
   def acquire(self, blocking=True, timeout=-1):
+    _check_acquire_args(blocking, timeout)
     s = _s()
     if s is None:
       if self._owner is not None:
@@ -95,6 +107,7 @@ class RLock(Lock):
     self._count = 0
 
   def acquire(self, blocking=True, timeout=-1):
+    _check_acquire_args(blocking, timeout)
     s = _s()
     me = s.current if s is not None else 'seq'
     if self._owner is me:
@@ -119,6 +132,11 @@ class RLock(Lock):
       self._owner = None
 
   __enter__ = acquire
+
+  if not hasattr(_rt.RLock(), 'locked'):     # the real RLock has none (< 3.14)
+    @property
+    def locked(self):
+      raise AttributeError("'RLock' object has no attribute 'locked'")
 
   def _is_owned(self):
     s = _s()
@@ -205,16 +223,18 @@ class Condition:
 
   def wait_for(self, predicate, timeout=None):
     s = _s()
-    end = None if timeout is None else s.clock + timeout
+    end = None
+    left = timeout
     result = predicate()
     while not result:
-      if end is not None:
-        left = end - s.clock
-        if left <= 0:
-          break
-        self.wait(left)
-      else:
-        self.wait(None)
+      if left is not None:
+        if end is None:       # as the real one: the first wait is unconditional
+          end = s.clock + left
+        else:
+          left = end - s.clock
+          if left <= 0:
+            break
+      self.wait(left)
       result = predicate()
     return result
 
@@ -268,10 +288,14 @@ class Event:
 class Semaphore:
 
   def __init__(self, value=1):
+    if value < 0:
+      raise ValueError('semaphore initial value must be >= 0')
     self._value = value
     self.name = _name('S')
 
   def acquire(self, blocking=True, timeout=None):
+    if not blocking and timeout is not None:
+      raise ValueError("can't specify timeout for non-blocking acquire")
     s = _s()
     s.point('sem-acquire', self.name)
     while self._value <= 0:
@@ -284,6 +308,8 @@ class Semaphore:
     return True
 
   def release(self, n=1):
+    if n < 1:
+      raise ValueError('n must be one or more')
     s = _s()
     if s is not None:
       s.note('sem-release', self.name)
@@ -295,7 +321,18 @@ class Semaphore:
     self.release()
 
 
-BoundedSemaphore = Semaphore
+class BoundedSemaphore(Semaphore):
+
+  def __init__(self, value=1):
+    super().__init__(value)
+    self._initial_value = value
+
+  def release(self, n=1):
+    if n < 1:
+      raise ValueError('n must be one or more')
+    if self._value + n > self._initial_value:
+      raise ValueError('Semaphore released too many times')
+    super().release(n)
 
 
 class Thread:
